@@ -28,7 +28,7 @@ class Unsupported(Exception):
 # kinds: 'int' 'bool' 'str' 'list' 'dict' 'mv' 'coef' 'fun' 'alg' 'tuple' 'opt:<kind>' 'signs' None(unknown)
 class T:
     """a translation target"""
-    def __init__(self, file, qual, lean, params, ret, locals=None, tparams='', uses_alg=False, coef=False, self_name=None, uses_ops=False, consts=None, state=None, externals=None, drop_assign=(), env=None, state_type=None):
+    def __init__(self, file, qual, lean, params, ret, locals=None, tparams='', uses_alg=False, coef=False, self_name=None, uses_ops=False, uses_mops=False, consts=None, state=None, externals=None, drop_assign=(), env=None, state_type=None):
         self.file, self.qual, self.lean = file, qual, lean
         self.params = params          # list of (pyname, leantype, kind)
         self.ret = ret
@@ -37,7 +37,9 @@ class T:
         self.uses_alg = uses_alg      # gets an `(alg : Alg)` / `(alg : Alg)` first parameter
         self.coef = coef              # generic in the coefficient type α
         self.self_name = self_name    # python name that denotes the algebra object (`self`, `algebra`, `alg`)
+        self.uses_mops = uses_mops    # gets an `(ops : MatOps μ)` parameter: numpy's matrix operations
         self.uses_ops = uses_ops      # gets an `(ops : Ops α)` parameter: the algebra's operators on multivectors
+        self.elem_kind = {}
         self.consts = consts or {}    # python parameters fixed to a constant (partial evaluation): not parameters in Lean
         self.state = state or {}      # method mode: python expression (text) -> (field of the state record, kind)
         self.externals = externals or {}   # python expression (text) -> (lean code, kind): calls out of the modelled core
@@ -100,6 +102,16 @@ TARGETS = [
       locals={'num': (MV, 'mv')}, tparams=COEF, uses_alg=True, uses_ops=True, consts={'symbolic': True}, self_name='alg'),
     T('kingdon/algebra.py', 'Algebra._blade2canon', 'blade2canon', [('basis_blade', 'List Char', 'str')], 'List Char × Int',
       uses_alg=True, self_name='self', locals={'bin': ('Int', 'int')}),
+    # ---- matrix representations (matrixreps.py), generic in the matrix type ----
+    T('kingdon/matrixreps.py', 'ordering_matrix', 'ordering_matrix', [('Rs', 'List μ', 'list')], 'μ', tparams='{μ : Type}', uses_mops=True,
+      externals={'Ri[:, 0]': ('(ops.col0 Ri)', 'mat'), 'np.vstack(columns)': ('(ops.vstack columns)', 'mat')}),
+    T('kingdon/matrixreps.py', 'matrix_rep', 'matrix_rep',
+      [('p', 'Int', 'int'), ('q', 'Int', 'int'), ('r', 'Int', 'int'), ('signature', 'Option (List Int)', 'opt:list:int'),
+       ('blades', 'Option (List (List Int))', 'opt:list:list:int')], 'List μ', tparams='{μ : Type}', uses_mops=True,
+      locals={'Ss': ('List μ', 'list'), 'Rs': ('List μ', 'list'), 'Es': ('List μ', 'list'), 'mats': ('List μ', 'list')},
+      externals={'I2': ('ops.i2', 'mat'), 'P2': ('ops.p2', 'mat'), 'Z2': ('ops.z2', 'mat'), 'N2': ('ops.n2', 'mat'), 'Ip2': ('ops.ip2', 'mat'),
+                 'np.kron': ('ops.kron', 'fun2'), 'reduce-init:1': ('ops.one', 'mat'),
+                 'reduce-init:np.eye(1, dtype=int)': ('ops.eye1', 'mat')}),
     # ---- method mode: the operator dictionaries (operator_dict.py) ----
     T('kingdon/operator_dict.py', 'OperatorDict.__getitem__', 'operatordict_getitem', [('keys_in', 'κ', 'key')], 'ρ × φ', tparams=ODT,
       env=ODENV, state_type=ODSTATE, state=OD_STATE, drop_assign=['mvs'], locals=OD_LOCALS,
@@ -160,6 +172,22 @@ structure Ops (α : Type) where
   one : Py.Dict Int α
   pss : Py.Dict Int α
 
+/-- numpy as `matrix_rep` uses it: the five 2x2 blocks, `np.kron`, `@`, `.T`, `M[:, 0]`, `np.vstack`, the scalar `1` that
+    starts `reduce(np.kron, mats, 1)` and `np.eye(1, dtype=int)` -/
+structure MatOps (μ : Type) where
+  i2 : μ
+  ip2 : μ
+  p2 : μ
+  n2 : μ
+  z2 : μ
+  kron : μ → μ → μ
+  matmul : μ → μ → μ
+  transpose : μ → μ
+  col0 : μ → μ
+  vstack : List μ → μ
+  one : μ
+  eye1 : μ
+
 '''
 
 
@@ -219,7 +247,7 @@ class Tr:
                 elif isinstance(node.target, ast.Subscript) and isinstance(node.target.value, ast.Name):
                     bump(node.target.value.id, 2)
             elif isinstance(node, ast.Call) and isinstance(node.func, ast.Attribute) and isinstance(node.func.value, ast.Name) \
-                    and node.func.attr in ('append', 'remove', 'insert', 'pop'):
+                    and node.func.attr in ('append', 'remove', 'insert', 'pop', 'extend'):
                 bump(node.func.value.id, 2)
             elif isinstance(node, (ast.For, ast.While)):
                 # anything assigned inside a loop is assigned repeatedly
@@ -299,6 +327,9 @@ class Tr:
         if isinstance(node, ast.Tuple):
             return '(' + ', '.join(self.E(e)[0] for e in node.elts) + ')', 'tuple'
         if isinstance(node, ast.List):
+            if any(isinstance(e, ast.Starred) for e in node.elts):
+                parts = [self.E(e.value)[0] if isinstance(e, ast.Starred) else '[' + self.E(e)[0] + ']' for e in node.elts]
+                return '(' + ' ++ '.join(parts) + ')', 'list'
             return '[' + ', '.join(self.E(e)[0] for e in node.elts) + ']', 'list'
         if isinstance(node, ast.NamedExpr):
             c, k = self.E(node.value)
@@ -329,6 +360,8 @@ class Tr:
                 return f'(ops.{ {"BitXor": "op", "BitOr": "ip"}[op] } {a} {b})', 'mv'
             if op in ('BitXor', 'BitOr', 'BitAnd'):
                 return f'(Py.{ {"BitXor": "xor", "BitOr": "lor", "BitAnd": "land"}[op] } {a} {b})', 'int'
+            if op == 'MatMult':
+                return f'(ops.matmul {a} {b})', 'mat'
             if op == 'Pow' and ka == 'int' and kb == 'int':
                 return f'(Py.pow {a} {b})', 'int'
             sym = {'Add': '+', 'Sub': '-', 'Mult': '*', 'Mod': '%'}.get(op)
@@ -430,6 +463,9 @@ class Tr:
                 if attr == 'pss' and self.t.uses_ops:
                     return 'ops.pss', 'mv'
                 raise Unsupported(f'algebra attribute {attr}')
+            if node.attr == 'T':
+                v, kv = self.E(node.value)
+                return f'(ops.transpose {v})', 'mat'
             if node.attr == '__name__' and self.t.env:
                 v, kv = self.E(node.value)
                 if kv == 'funcobj':
@@ -456,8 +492,8 @@ class Tr:
                 return f'(alg.signs {i})', 'int'
             if kv in ('dict', 'mv') or (kv or '').startswith('dict:'):
                 return f'(← Py.dictGet {v} {i})', ('coef' if kv == 'mv' else kv[5:] if kv.startswith('dict:') else None)
-            if kv in ('list', 'str'):
-                return f'(← Py.getItem {v} {i})', ('int' if v == 'alg.signature' else None)
+            if kv in ('list', 'str') or (kv or '').startswith('list:'):
+                return f'(← Py.getItem {v} {i})', ('int' if v == 'alg.signature' else kv[5:] if (kv or '').startswith('list:') else self.t.elem_kind.get(v))
             raise Unsupported(f'subscript on kind {kv}')
         if isinstance(node, ast.Call):
             return self.call(node)
@@ -488,12 +524,15 @@ class Tr:
             it, kit = self.E(g.iter)
             saved = dict(self.kinds)
             if isinstance(g.target, ast.Name):
-                self.kinds[g.target.id] = 'char' if kit == 'str' else None
+                is_range = isinstance(g.iter, ast.Call) and isinstance(g.iter.func, ast.Name) and g.iter.func.id == 'range'
+                self.kinds[g.target.id] = 'char' if kit == 'str' else 'int' if (is_range or kit == 'list:int') else 'list:int' if kit == 'list:list:int' else None
             npre = len(self.pre)
             body, kb = self.E(node.elt)
             self.kinds = saved
-            if len(self.pre) != npre or '←' in body:
-                raise Unsupported('comprehension whose element can raise')
+            if len(self.pre) != npre:
+                raise Unsupported('comprehension whose element binds names')
+            if '←' in body:
+                return f'(← ({it}).mapM (fun {self.pat(g.target)} => do pure {body}))', 'list'
             return f'(({it}).map (fun {self.pat(g.target)} => {body}))', 'list'
         if isinstance(node, ast.DictComp):
             return self.dictcomp(node)
@@ -510,6 +549,17 @@ class Tr:
             raise Unsupported('lambda whose body can raise or binds names')
         self.kinds = saved
         return f'(fun {" ".join(args)} => {body})', 'fun'
+
+    def lam2(self, node):
+        args = [a.arg for a in node.args.args]
+        saved = dict(self.kinds)
+        for a in args:
+            self.kinds[a] = 'mat'
+        body = self.E(node.body)[0]
+        self.kinds = saved
+        if '←' in body:
+            raise Unsupported('lambda whose body can raise')
+        return f'(fun {" ".join(args)} => {body})'
 
     def sub_do(self, node):
         """an expression in a position that is evaluated conditionally"""
@@ -555,6 +605,10 @@ class Tr:
             assign(tg, [['int', 'coef'], ['int', 'coef']])
         elif isinstance(it, ast.Call) and isinstance(it.func, ast.Name) and it.func.id == 'enumerate':
             assign(tg, ['int', None])
+        elif isinstance(it, ast.Call) and isinstance(it.func, ast.Name) and it.func.id == 'range':
+            assign(tg, 'int')
+        elif isinstance(it, ast.Name) and self.kinds.get(it.id) == 'list:int':
+            assign(tg, 'int')
         else:
             assign(tg, None)
 
@@ -590,6 +644,20 @@ class Tr:
                 return f'({self.E(args[0])[0]}, {self.E(args[1])[0]})', 'tuple'
             if n == 'reduce' and len(args) == 2 and ast.unparse(args[0]) == 'operator.or_':
                 return f'(← Py.reduce Py.lor {self.E(args[1])[0]})', 'int'
+            if n == 'reduce' and len(args) in (2, 3) and not kw:
+                fcode = self.lam2(args[0]) if isinstance(args[0], ast.Lambda) else self.E(args[0])[0]
+                xs = self.E(args[1])[0]
+                if len(args) == 3:
+                    init = self.t.externals.get('reduce-init:' + ast.unparse(args[2]), None)
+                    init = init[0] if init else self.E(args[2])[0]
+                    return f'(({xs}).foldl {fcode} {init})', 'mat'
+                return f'(← Py.reduce {fcode} {xs})', 'mat'
+            if n == 'range' and len(args) in (1, 2) and not kw:
+                if len(args) == 1:
+                    return f'(Py.range (0 : Int) {self.E(args[0])[0]})', 'list'
+                return f'(Py.range {self.E(args[0])[0]} {self.E(args[1])[0]})', 'list'
+            if n == 'combinations' and len(args) == 1 and set(kw) == {'r'}:
+                return f'(Py.combinations {self.E(args[0])[0]} {self.E(kw["r"])[0]})', 'list'
             if n in BY_PY:
                 return self.call_target(BY_PY[n], args, kw)
             if self.kinds.get(n) == 'fun':
@@ -616,6 +684,8 @@ class Tr:
                     # `d.get(k, False)`: absent or the value; python then tests its truthiness
                     return f'(Py.dictGet? {v} {self.E(args[0])[0]})', 'opt:' + (kv[5:] if kv.startswith('dict:') else 'val')
                 return f'(Py.dictGetD {v} {self.E(args[0])[0]} {self.E(args[1])[0]})', (kv[5:] if kv.startswith('dict:') else None)
+            if f.attr == 'copy' and kv == 'list' and not args:
+                return v, 'list'
             if f.attr == 'items' and kv in ('mv', 'dict') and not args:
                 return v, 'list'
             if f.attr == 'values' and kv in ('mv', 'dict') and not args:
@@ -668,7 +738,7 @@ class Tr:
                 c = f'(some {c})'
             out.append(c)
         a = 'alg ' if tgt.uses_alg else ''
-        if tgt.uses_ops:
+        if tgt.uses_ops or tgt.uses_mops:
             a += 'ops '
         return f'(← {tgt.lean} {a}' + ' '.join(out) + ')', ('mv' if tgt.ret == MV else None)
 
@@ -708,8 +778,8 @@ class Tr:
                 c = st.value
                 if isinstance(c.func, ast.Attribute) and isinstance(c.func.value, ast.Name):
                     obj = c.func.value.id
-                    if obj == 'warnings':
-                        return []
+                    if obj in ('warnings', 'logging', 'logger', 'log'):
+                        return []                              # diagnostics: no effect on the result
                     m = c.func.attr
                     if m == 'append' and len(c.args) == 1:
                         a, _ = self.E(c.args[0])
@@ -717,10 +787,15 @@ class Tr:
                     if m == 'remove' and len(c.args) == 1:
                         a, _ = self.E(c.args[0])
                         return self.flush(ind) + [f'{ind}{obj} := (← Py.remove {obj} {a})']
+                    if m == 'extend' and len(c.args) == 1:
+                        a, _ = self.E(c.args[0])
+                        return self.flush(ind) + [f'{ind}{obj} := {obj} ++ {a}']
                     if m == 'insert' and len(c.args) == 2:
                         i, _ = self.E(c.args[0])
                         a, _ = self.E(c.args[1])
                         return self.flush(ind) + [f'{ind}{obj} := Py.insert {obj} {i} {a}']
+                if isinstance(c.func, ast.Name) and c.func.id == 'print':
+                    return []                                  # diagnostics: no effect on the result
             raise Unsupported('expression statement')
         if isinstance(st, ast.Assign):
             if len(st.targets) != 1:
@@ -773,6 +848,11 @@ class Tr:
                 v_, _ = self.E(st.value)
                 return self.flush(ind) + [f'{ind}{d} := Py.dictSet {d} {k_} {v_}']
             raise Unsupported('assignment form')
+        if isinstance(st, ast.AnnAssign) and st.value is not None and isinstance(st.target, ast.Name):
+            return self.S(ast.Assign(targets=[st.target], value=st.value), ind)     # the annotation is not semantics
+        if isinstance(st, ast.Assert):
+            t = self.truth(st.test)
+            return self.flush(ind) + [f'{ind}if (!{t}) then', f'{ind}  throw "AssertionError"']
         if isinstance(st, ast.AugAssign):
             op = {'Add': '+', 'Sub': '-', 'Mult': '*'}.get(type(st.op).__name__)
             if op is None:
@@ -833,6 +913,23 @@ class Tr:
             if isinstance(st.test, ast.Name) and st.test.id in self.t.consts:
                 # partial evaluation on a parameter fixed by the TARGETS table
                 return self.block(st.body if self.t.consts[st.test.id] else st.orelse, ind) if (st.body if self.t.consts[st.test.id] else st.orelse) else []
+            if isinstance(st.test, ast.Compare) and len(st.test.ops) == 1 and isinstance(st.test.ops[0], (ast.IsNot, ast.Is)) \
+                    and isinstance(st.test.left, ast.Name) and (self.kinds.get(st.test.left.id) or '').startswith('opt:') \
+                    and isinstance(st.test.comparators[0], ast.Constant) and st.test.comparators[0].value is None:
+                n = st.test.left.id
+                old = self.kinds[n]
+                some_body, none_body = (st.body, st.orelse) if isinstance(st.test.ops[0], ast.IsNot) else (st.orelse, st.body)
+                out = self.flush(ind) + [f'{ind}if let some {n} := {n} then']
+                self.kinds[n] = old[4:]
+                dsaved = set(self.declared)
+                out += self.block(some_body, ind + '  ')
+                self.declared = dsaved | {m for m in self.declared if m in dsaved}
+                self.kinds[n] = old
+                if none_body:
+                    out.append(f'{ind}else')
+                    out += self.block(none_body, ind + '  ')
+                    self.declared = dsaved | {m for m in self.declared if m in dsaved}
+                return out
             if isinstance(st.test, ast.Name) and (self.kinds.get(st.test.id) or '').startswith('opt:') and not st.orelse:
                 # `x = d.get(k, False)` ... `if x:`  — present and truthy
                 n = st.test.id
@@ -877,6 +974,8 @@ class Tr:
             ps.append('(alg : Alg)')
         if t.uses_ops:
             ps.append('(ops : Ops α)')
+        if t.uses_mops:
+            ps.append('(ops : MatOps μ)')
         ps += [f'({p} : {ty})' for p, ty, _ in t.params]
         names = [a.arg for a in self.fn.args.args]
         if (t.env or t.self_name == 'self') and names[:1] == ['self']:
